@@ -1,6 +1,8 @@
-use std::{any::TypeId, collections::hash_map::Entry, marker::PhantomData};
+use std::marker::PhantomData;
 
-use std::collections::HashMap; // VERIF MODEL: std map instead of ahash (never executed by a harness)
+// VERIF MODEL: `TypeKey` (a per-type integer constant) instead of `TypeId`, and a linear search
+// over `tys` instead of the `AHashMap<TypeId, usize>` index (see world/restable.rs)
+use crate::world::TypeKey;
 
 use crate::cell::{AtomicRef, AtomicRefMut};
 use crate::{Resource, ResourceId, World};
@@ -58,7 +60,7 @@ pub struct MetaIter<'a, T: ?Sized + 'a> {
     #[cfg(feature = "nightly")]
     vtables: &'a [DynMetadata<T>],
     index: usize,
-    tys: &'a [TypeId],
+    tys: &'a [TypeKey],
     // `MetaIter` is invariant over `T`
     marker: PhantomData<Invariant<T>>,
     world: &'a World,
@@ -152,7 +154,7 @@ pub struct MetaIterMut<'a, T: ?Sized + 'a> {
     #[cfg(feature = "nightly")]
     vtables: &'a [DynMetadata<T>],
     index: usize,
-    tys: &'a [TypeId],
+    tys: &'a [TypeKey],
     // `MetaIterMut` is invariant over `T`
     marker: PhantomData<Invariant<T>>,
     world: &'a World,
@@ -346,8 +348,7 @@ pub struct MetaTable<T: ?Sized> {
     vtable_fns: Vec<fn(*mut ()) -> *mut T>,
     #[cfg(feature = "nightly")]
     vtables: Vec<DynMetadata<T>>,
-    indices: HashMap<TypeId, usize>,
-    tys: Vec<TypeId>,
+    tys: Vec<TypeKey>,
     // `MetaTable` is invariant over `T`
     marker: PhantomData<Invariant<T>>,
 }
@@ -369,27 +370,31 @@ impl<T: ?Sized> MetaTable<T> {
         R: Resource,
         T: CastFrom<R> + 'static,
     {
-        let ty_id = TypeId::of::<R>();
+        let ty_id = TypeKey::of::<R>();
         let vtable_fn = attach_vtable::<T, R>;
 
         // Important: ensure no entry exists twice!
-        let len = self.indices.len();
-        match self.indices.entry(ty_id) {
-            Entry::Occupied(occ) => {
-                let ind = *occ.get();
-
+        // (index loop, not a slice iterator: CBMC does not fold the pointer comparison that ends
+        // a slice iterator over an empty vector's dangling pointer)
+        let mut found = None;
+        let mut i = 0;
+        while i < self.tys.len() {
+            if self.tys[i] == ty_id {
+                found = Some(i);
+            }
+            i += 1;
+        }
+        match found {
+            Some(ind) => {
                 self.vtable_fns[ind] = vtable_fn;
             }
-            Entry::Vacant(vac) => {
-                vac.insert(len);
-
+            None => {
                 self.vtable_fns.push(vtable_fn);
                 self.tys.push(ty_id);
             }
         }
     }
 
-    /// Registers a resource `R` that implements the trait `T`.
     #[cfg(feature = "nightly")]
     pub fn register<R>(&mut self)
     where
@@ -431,29 +436,17 @@ impl<T: ?Sized> MetaTable<T> {
     /// registered), this will return `None`.
     #[cfg(not(feature = "nightly"))]
     pub fn get<'a>(&self, res: &'a dyn Resource) -> Option<&'a T> {
-        self.indices.get(&res.type_id()).map(|&ind| {
-            let vtable_fn = self.vtable_fns[ind];
-
-            let ptr = <*const dyn Resource>::cast::<()>(res).cast_mut();
-            let trait_ptr = (vtable_fn)(ptr);
-            // SAFETY: We retrieved the `vtable_fn` via TypeId so it will attach
-            // a vtable that corresponds with the erased type that the TypeId
-            // refers to. `vtable_fn` will also preserve the provenance and
-            // address (so we can safely produce a shared reference since we
-            // started with one).
-            unsafe { &*trait_ptr }
-        })
+        // VERIF MODEL: lookup by the dynamic `TypeId` of `res` is not modelled (specs does not use it)
+        let _ = res;
+        unimplemented!("VERIF MODEL: MetaTable::get")
     }
 
-    /// Tries to convert `world` to a trait object of type `&T`.
-    /// If `world` doesn't have an implementation for `T` (or it wasn't
-    /// registered), this will return `None`.
     #[cfg(feature = "nightly")]
     pub fn get<'a>(&self, res: &'a dyn Resource) -> Option<&'a T>
     where
         T: Pointee<Metadata = DynMetadata<T>>,
     {
-        self.indices.get(&res.type_id()).map(|&ind| {
+        self.tys.iter().position(|t| *t == res.verif_type_key()).map(|ind| {
             let vtable = self.vtables[ind];
             let ptr = <*const dyn Resource>::cast::<()>(res);
             let trait_ptr = core::ptr::from_raw_parts(ptr, vtable);
@@ -471,28 +464,17 @@ impl<T: ?Sized> MetaTable<T> {
     /// registered), this will return `None`.
     #[cfg(not(feature = "nightly"))]
     pub fn get_mut<'a>(&self, res: &'a mut dyn Resource) -> Option<&'a mut T> {
-        self.indices.get(&res.type_id()).map(|&ind| {
-            let vtable_fn = self.vtable_fns[ind];
-            let ptr = <*mut dyn Resource>::cast::<()>(res);
-            let trait_ptr = (vtable_fn)(ptr);
-            // SAFETY: We retrieved the `vtable_fn` via TypeId so it will attach
-            // a vtable that corresponds with the erased type that the TypeId
-            // refers to. `vtable_fn` will also preserve the provenance and
-            // address (so we can safely produce a mutable reference since we
-            // started with one).
-            unsafe { &mut *trait_ptr }
-        })
+        // VERIF MODEL: lookup by the dynamic `TypeId` of `res` is not modelled (specs does not use it)
+        let _ = res;
+        unimplemented!("VERIF MODEL: MetaTable::get_mut")
     }
 
-    /// Tries to convert `world` to a trait object of type `&mut T`.
-    /// If `world` doesn't have an implementation for `T` (or it wasn't
-    /// registered), this will return `None`.
     #[cfg(feature = "nightly")]
     pub fn get_mut<'a>(&self, res: &'a mut dyn Resource) -> Option<&'a mut T>
     where
         T: Pointee<Metadata = DynMetadata<T>>,
     {
-        self.indices.get(&res.type_id()).map(|&ind| {
+        self.tys.iter().position(|t| *t == res.verif_type_key()).map(|ind| {
             let vtable = self.vtables[ind];
             let ptr = <*mut dyn Resource>::cast::<()>(res);
             let trait_ptr = core::ptr::from_raw_parts_mut(ptr, vtable);
@@ -544,7 +526,6 @@ where
             vtable_fns: Default::default(),
             #[cfg(feature = "nightly")]
             vtables: Default::default(),
-            indices: Default::default(),
             tys: Default::default(),
             marker: Default::default(),
         }
